@@ -273,6 +273,7 @@ func newSim(cfg Config) *Sim {
 		arenaChans = make([]*chanCore, maxG)
 	}
 	resetPools()
+	resetPackages()
 	s := &Sim{cfg: cfg, rng: cfg.Seed ^ 0x5851f42d4c957f2d, maxSteps: cfg.MaxSteps}
 	if s.maxSteps <= 0 {
 		s.maxSteps = 1 << 20
